@@ -492,3 +492,26 @@ Proof.
   - apply Permutation_map. apply H1.
   - apply Permutation_map. apply H2.
 Qed.
+
+(* ---- the register scan of calculate_heuristics is a count and an any *)
+Lemma register_scan_closed near pois iter : register_scan near pois iter = (length (filter near iter), existsb pois iter).
+Proof.
+  unfold register_scan.
+  assert (G : forall n p, fold_left (fun (acc : nat * bool) a => ((if near a then S (fst acc) else fst acc), (if negb (snd acc) && pois a then true else snd acc))) iter (n, p)
+                          = ((n + length (filter near iter))%nat, p || existsb pois iter)).
+  { induction iter as [|a t IH]; intros n p; cbn [fold_left filter existsb length fst snd].
+    - rewrite Nat.add_0_r, orb_false_r. reflexivity.
+    - rewrite IH. destruct (near a), p, (pois a); cbn [length negb andb orb]; f_equal; lia. }
+  rewrite G. reflexivity.
+Qed.
+
+Lemma register_scan_perm near pois i1 i2 : Permutation i1 i2 -> register_scan near pois i1 = register_scan near pois i2.
+Proof.
+  intros H. rewrite !register_scan_closed. f_equal.
+  - apply Permutation_length. clear pois. induction H as [|x l l' Hp IH|x y l|l l' l'' H1 IH1 H2 IH2]; cbn [filter].
+    + apply perm_nil.
+    + destruct (near x); [apply perm_skip|]; exact IH.
+    + destruct (near x), (near y); try apply perm_swap; apply Permutation_refl.
+    + eapply Permutation_trans; eassumption.
+  - apply existsb_perm. exact H.
+Qed.
